@@ -113,6 +113,8 @@ def exc_code(e):
         return ["e", 101, type(e).__name__]
     if isinstance(e, ValueError):
         return ["e", 1, type(e).__name__]
+    if isinstance(e, TypeError):
+        return ["e", 2, type(e).__name__]
     return ["e", 99, type(e).__name__ + ": " + str(e)[:80]]
 
 
@@ -124,8 +126,10 @@ def do_op(f, o):
             return ["x", "read returned " + type(b).__name__]
         return ["b", sh.sha(b), len(b)]
     if k == "readinto":
-        ba = bytearray(b"\xaa" * o[1])
-        n = f.readinto(ba)
+        kind = o[2] if len(o) > 2 else "bytearray"
+        t = sh.make_target(kind, o[1])
+        n = f.readinto(t)
+        ba = sh.target_bytes(t)
         if not isinstance(n, int) or n < 0 or n > len(ba):
             return ["x", "readinto returned %r" % (n,)]
         return ["i", sh.sha(ba[:n]), n, bytes(ba[n:]) == b"\xaa" * (o[1] - n)]
